@@ -62,7 +62,23 @@ type FuncV struct {
 type TupleV []Value
 
 // Float values are only supported as constants.
-type FloatV struct{ f float64 }
+// FloatV: a constant float64, or (it != nil) a float64 whose value is the integer term it (JSON numbers decoded into
+// interface{}); no other symbolic floats exist.
+type FloatV struct {
+	f  float64
+	it *Term
+}
+
+// intTerm returns the integer term of an integer-valued float.
+func (f FloatV) intTerm() (*Term, bool) {
+	if f.it != nil {
+		return f.it, true
+	}
+	if f.f == float64(int64(f.f)) && f.f > -1e15 && f.f < 1e15 {
+		return mkInt(int64(f.f)), true
+	}
+	return nil, false
+}
 
 // Opaque native Go value (used by a few intercepts, e.g. compiled Lua chunks).
 type NativeV struct{ v interface{} }
@@ -119,7 +135,7 @@ func (ex *Exec) zero(t types.Type) Value {
 		case info&types.IsString != 0:
 			return mkStr("")
 		case info&types.IsFloat != 0:
-			return FloatV{0}
+			return FloatV{f: 0}
 		case u.Kind() == types.UnsafePointer:
 			return PtrV{}
 		case u.Kind() == types.UntypedNil:
@@ -222,4 +238,16 @@ func isNilValue(v Value) (isnil bool, known bool) {
 		return x.fn == nil && x.builtin == "", true
 	}
 	return false, false
+}
+
+func floatEq(a, b FloatV) *Term {
+	if a.it == nil && b.it == nil {
+		return mkBool(a.f == b.f)
+	}
+	ia, oka := a.intTerm()
+	ib, okb := b.intTerm()
+	if !oka || !okb {
+		return tFalse
+	}
+	return mkEq(ia, ib)
 }
